@@ -109,7 +109,15 @@ class Shard:
             state = {'target': None, 'case': None, 'detail': None, 'raised': set(), 't_first': None}
 
             def body(case):
-                fails = prop(self, case) or ()
+                try:
+                    fails = prop(self, case) or ()
+                except Exception:  # noqa: BLE001
+                    # an exception in the oracle itself (not in the code under test, whose calls are wrapped):
+                    # the case is inconclusive; it is counted and reported, and too many of them fail the run (exit 2)
+                    self.counters['harness_exceptions'] += 1
+                    if 'harness_exception_sample' not in self.extra:
+                        self.extra['harness_exception_sample'] = traceback.format_exc()[-1500:]
+                    return
                 for sig, detail in fails:
                     if sig in masked:
                         if sig in self.known_sigs:
@@ -348,6 +356,12 @@ def main(prop, tier, seed, replay=None):
         for sig, rel in violations:
             print(f'VIOLATION property={prop} replay={rel}')
         return 1
+    nharness = counters.get('harness_exceptions', 0)
+    if nharness:
+        print(f'warning: {nharness} case(s) raised inside the oracle and were discarded:\n{extra.get("harness_exception_sample")}', file=sys.stderr)
+        if nharness > max(3, coverage['evaluations'] // 100):
+            print('HARNESS ERROR: too many oracle exceptions', file=sys.stderr)
+            return 2
     if coverage['distinct_nontrivial'] < 2:
         print('HARNESS ERROR: fewer than 2 non-trivial cases generated', file=sys.stderr)
         return 2
